@@ -49,7 +49,7 @@ CHECKS = {
          "For each of the ten SAUCE-writing formats, documents with generated metadata of every field length, 0..=255 comments and widths up to 1000 are saved and (a) parsed by a reference reader, (b) loaded and compared with what the variant can carry; the exactness of the cut is checked by sauce_header_len == trailer length and cell equality of content vs content+trailer, including look-alike markers, empty and 127/128/129-byte contents, and foreign (reference-written, NUL-padded, EOF-less) trailers.",
          "Ice flag and font name carried by a file are those of the document (ice mode, font 0 name).", "DESIGN.md §4 C11"),
  "C14": ("recorded event log of harness-controlled decode completions (gate hook) checked offline against a sequential model; direct assertions on decoder output; Miri data-race/UB detection with 16 scheduler seeds (thorough)",
-         "Schedules: for k<=4 images in flight all k! completion orders x all 2^k poll placements x 12 geometry classes (5304 schedules) are executed with real threads held in the gate; every poll runs on a helper thread while every decoder it could wait for is held by the harness (not returning within 6 s = blocked); the log of what is on screen after each step is checked against 'fold arrivals in order over the longest finished prefix'. Payloads: seeded sixel payloads (20k quick / 2M thorough) must decode to width*height*4 bytes consistent with a declared raster.",
+         "Schedules: for k<=4 images in flight all k! completion orders x all 2^k poll placements x 14 geometry classes (6188 schedules) are executed with real threads held in the gate; every poll runs on a helper thread while every decoder it could wait for is held by the harness (not returning within 6 s = blocked); the log of what is on screen after each step is checked against 'fold arrivals in order over the longest finished prefix'. Payloads: seeded sixel payloads (20k quick / 2M thorough) must decode to width*height*4 bytes consistent with a declared raster.",
          "Decode durations are not enumerated (order and poll placement determine the shared state). Images are identified by colour/position/size.", "DESIGN.md §4 C14"),
  "C15": ("write->parse differential on the real writers and parsers of the six text formats with a per-cell oracle (character, displayed colours / inverse video), violations shrunk over cells",
          "Buffers of width 80 (40 ATASCII), height 1..=40, printable CP437 minus lead-ins, all fg 0..=15 x bg 0..=7 attribute sequences, rows of every length incl. full width, 3 screen preparations: every cell up to the end of its row must come back.",
